@@ -2,6 +2,7 @@ package checks
 
 import (
 	"fmt"
+	"math/rand"
 	"os"
 	"path/filepath"
 	"sort"
@@ -9,6 +10,7 @@ import (
 	"time"
 
 	"verif/internal/core"
+	"verif/internal/pgen"
 )
 
 func init() { Registry["C09"] = C09 }
@@ -19,6 +21,8 @@ type c09Prog struct {
 	pkgs     []string // package patterns in canonical order
 	fails    bool
 	note     string
+	sub      string // working sub-directory inside the module (generated programs live below their case name)
+	anyExit  bool   // generated programs: the reference decides whether it succeeds
 }
 
 func c09Programs() []c09Prog {
@@ -242,6 +246,32 @@ func C09(e *core.Env) int {
 	root := filepath.Join(e.Scratch, "c09")
 	k := tierN(e, 7, 24)
 	progs := c09Programs()
+	// seeded generated programs (several converters, helpers, custom functions, enums) on top of the fixed ones
+	{
+		ng := tierN(e, 6, 40)
+		gr := rand.New(rand.NewSource(e.Seed*2971 + 9))
+		for i := 0; i < ng; i++ {
+			var c *pgen.Case
+			name := fmt.Sprintf("g%03d", i)
+			sub := rand.New(rand.NewSource(gr.Int63()))
+			switch i % 3 {
+			case 0:
+				c = pgen.Structural(sub, name, pgen.StructOpts{Format: formats[i%3], NMethods: 3, NConverters: 3, Depth: 3, Seed: int64(i)})
+			case 1:
+				c = pgen.CustomCase(sub, name, pgen.CustomOpts{Format: formats[(i/3)%3], Seed: int64(i), WrapMode: "wrapErrors", WrapLevel: "conv", Fallible: true})
+			default:
+				c, _ = pgen.EnumCase(sub, name, pgen.EnumOpts{Format: formats[(i/3)%3], Seed: int64(i)})
+			}
+			files := map[string]string{}
+			for p, b := range c.Files() {
+				files[name+"/"+p] = b
+			}
+			if len(c.Args) > 0 {
+				continue // keep the canonical argv simple: programs whose settings live in the sources only
+			}
+			progs = append(progs, c09Prog{name: "gen_" + name, files: files, pkgs: c.Patterns, sub: name, anyExit: true, note: "generated program: " + featureString(c)})
+		}
+	}
 	type job struct {
 		prog  int
 		label string
@@ -259,28 +289,29 @@ func C09(e *core.Env) int {
 		add := func(label string, run func(dir string) c09Obs) {
 			jobs = append(jobs, job{prog: pi, label: label, run: run})
 		}
-		add("reference", func(dir string) c09Obs { return obsCLI(dir, dir, canon, nil, "reference") })
+		wd := func(dir string) string { return filepath.Join(dir, p.sub) }
+		add("reference", func(dir string) c09Obs { return obsCLI(dir, wd(dir), canon, nil, "reference") })
 		for r := 0; r < k; r++ {
 			lbl := fmt.Sprintf("repeat%d", r)
-			add(lbl, func(dir string) c09Obs { return obsCLI(dir, dir, canon, nil, lbl) })
+			add(lbl, func(dir string) c09Obs { return obsCLI(dir, wd(dir), canon, nil, lbl) })
 		}
 		// permutations / duplicates / wildcard
 		rev := append([]string{}, p.pkgs...)
 		sort.Sort(sort.Reverse(sort.StringSlice(rev)))
-		add("reversed", func(dir string) c09Obs { return obsCLI(dir, dir, append([]string{"gen"}, rev...), nil, "reversed patterns") })
+		add("reversed", func(dir string) c09Obs { return obsCLI(dir, wd(dir), append([]string{"gen"}, rev...), nil, "reversed patterns") })
 		dup := append(append([]string{}, rev...), p.pkgs...)
-		add("duplicated", func(dir string) c09Obs { return obsCLI(dir, dir, append([]string{"gen"}, dup...), nil, "duplicated patterns") })
-		add("wildcard", func(dir string) c09Obs { return obsCLI(dir, dir, []string{"gen", "./..."}, nil, "./...") })
+		add("duplicated", func(dir string) c09Obs { return obsCLI(dir, wd(dir), append([]string{"gen"}, dup...), nil, "duplicated patterns") })
+		add("wildcard", func(dir string) c09Obs { return obsCLI(dir, wd(dir), []string{"gen", "./..."}, nil, "./...") })
 		add("overlap", func(dir string) c09Obs {
-			return obsCLI(dir, dir, append([]string{"gen", "./..."}, p.pkgs...), nil, "./... plus explicit")
+			return obsCLI(dir, wd(dir), append([]string{"gen", "./..."}, p.pkgs...), nil, "./... plus explicit")
 		})
 		add("cwdflag", func(dir string) c09Obs {
-			return obsCLI(dir, e.Scratch, append([]string{"gen", "-cwd", dir}, p.pkgs...), nil, "-cwd")
+			return obsCLI(dir, e.Scratch, append([]string{"gen", "-cwd", wd(dir)}, p.pkgs...), nil, "-cwd")
 		})
-		add("gomaxprocs1", func(dir string) c09Obs { return obsCLI(dir, dir, canon, []string{"GOMAXPROCS=1"}, "GOMAXPROCS=1") })
-		add("relocated", func(dir string) c09Obs { return obsCLI(dir, dir, canon, nil, "relocated copy") })
+		add("gomaxprocs1", func(dir string) c09Obs { return obsCLI(dir, wd(dir), canon, []string{"GOMAXPROCS=1"}, "GOMAXPROCS=1") })
+		add("relocated", func(dir string) c09Obs { return obsCLI(dir, wd(dir), canon, nil, "relocated copy") })
 		add("inprocess", func(dir string) c09Obs {
-			outs, _ := runInproc(e, helper, map[string]any{"dir": dir, "patterns": p.pkgs, "buildTags": "goverter", "constraint": "!goverter", "variants": []inprocVariant{{Name: "v"}}, "mode": "together"}, 2*time.Minute)
+			outs, _ := runInproc(e, helper, map[string]any{"dir": wd(dir), "patterns": p.pkgs, "buildTags": "goverter", "constraint": "!goverter", "variants": []inprocVariant{{Name: "v"}}, "mode": "together"}, 2*time.Minute)
 			o := c09Obs{label: "in-process API", files: map[string]string{}}
 			for _, x := range outs {
 				if x.Panic != "" {
@@ -297,9 +328,9 @@ func C09(e *core.Env) int {
 			return o
 		})
 		add("stale", func(dir string) c09Obs {
-			first := obsCLI(dir, dir, canon, nil, "first")
+			first := obsCLI(dir, wd(dir), canon, nil, "first")
 			if first.exit != 0 {
-				return obsCLI(dir, dir, canon, nil, "regeneration over a stale previous output")
+				return obsCLI(dir, wd(dir), canon, nil, "regeneration over a stale previous output")
 			}
 			// make every previous output longer and outdated, one of them syntactically broken after the header lines
 			k := 0
@@ -313,7 +344,7 @@ func C09(e *core.Env) int {
 				}
 				k++
 			}
-			second := obsCLI(dir, dir, canon, nil, "regeneration over a stale previous output")
+			second := obsCLI(dir, wd(dir), canon, nil, "regeneration over a stale previous output")
 			if second.exit == 0 {
 				now := snapshotFiles(dir)
 				second.files = map[string]string{}
@@ -324,8 +355,8 @@ func C09(e *core.Env) int {
 			return second
 		})
 		add("regenerate", func(dir string) c09Obs {
-			first := obsCLI(dir, dir, canon, nil, "first")
-			second := obsCLI(dir, dir, canon, nil, "regeneration over own output")
+			first := obsCLI(dir, wd(dir), canon, nil, "first")
+			second := obsCLI(dir, wd(dir), canon, nil, "regeneration over own output")
 			if second.exit == 0 {
 				// a second run rewrites identical bytes: the diff-based file set is empty, so take the tree
 				second.files = first.files
@@ -359,10 +390,12 @@ func C09(e *core.Env) int {
 		p := &progs[j.prog]
 		ref := refs[j.prog]
 		if j.label == "reference" {
-			if p.fails && ref.exit != 1 {
+			if p.anyExit {
+				// generated program: whatever the reference does is the reference
+			} else if p.fails && ref.exit != 1 {
 				rep.Violation(&core.Viol{Kind: "expected_failure", Case: p.name, Summary: fmt.Sprintf("program %s should fail, exit %d", p.name, ref.exit), Detail: ref.stderr})
 			}
-			if !p.fails && ref.exit != 0 {
+			if !p.anyExit && !p.fails && ref.exit != 0 {
 				rep.Violation(&core.Viol{Kind: "expected_success", Case: p.name, Summary: fmt.Sprintf("program %s should generate, exit %d: %s", p.name, ref.exit, firstLine(ref.stderr)), Detail: ref.stderr})
 			}
 			if len(rep.Samples) < 5 {
